@@ -699,6 +699,22 @@ def run(rep, tier, seed):
                 import traceback
                 rep.add("C19|evaluator-crashed", f"{type(ex).__name__}: {ex} ({traceback.format_exc().splitlines()[-3].strip()})",
                         f"{name}:{en}")
+        # value classes are compared with equals(): range and default tags are allocated per value, a parsed object is
+        # never the builder's instance -- `==` between two objects of generated classes is a reference comparison
+        for cn, kc in jm.classes.items():
+            if cn.split(".")[0] in bad_files:
+                continue
+            for mn, ms in kc["methods"].items():
+                for m_ in ms:
+                    for x in _walk(m_.get("body")):
+                        if x.get("k") in ("EQUAL_TO", "NOT_EQUAL_TO"):
+                            ta, tb = str(x["a"].get("t") or ""), str(x["b"].get("t") or "")
+                            stats["ref_eq_sites"] = stats.get("ref_eq_sites", 0) + 1
+                            if ta.startswith("p.") and tb.startswith("p.") and \
+                                    not any(y.get("k") == "IDENTIFIER" and y.get("name") == "this" for y in (x["a"], x["b"])):
+                                rep.add("C19|java|equals|reference-equality", f"{cn}.{mn} compares two {ta.split('.')[-1]} "
+                                        f"objects with {'==' if x['k'] == 'EQUAL_TO' else '!='}: equal values held by different "
+                                        f"instances (range tags, parsed objects) compare unequal", f"{name} {cn}.{mn}")
         st = statics_of(jm)
         excl = set((g.entry(name).get("opts") or {}).get("exclude", {}).get("java", []))
         for decl, dd in r.decls.items():
